@@ -785,6 +785,35 @@ class TrigTime:
         return result
 
     @classmethod
+    async def once_next(cls, date_time_str, now, startup_time):
+        """Return the earliest time a once() datetime denotes that is after now (or now itself at startup)."""
+        spec = date_time_str.strip().lower()
+        word = re.match(r"(\w+)", spec)
+        refs = None
+        if re.match(r"0*\d+[-/]0*\d+[-/]0*\d+", spec) or (word and word[1] in {"today", "tomorrow", "now"}):
+            refs = [(now, 0)]  # one fixed instant
+        elif re.match(r"0*\d+[-/]0*\d+", spec):
+            # month/day: that date in the surrounding years (a 2/29 only in leap years)
+            refs = [(dt.datetime(year, 1, 1), 0) for year in range(now.year - 1, now.year + 9)]
+        else:
+            # weekday or time only: every day around now, shifted back by what the offset adds
+            first, _ = await cls.parse_date_time(spec, 0, now, startup_time)
+            shift = (first - dt.datetime(now.year, now.month, now.day)).days
+            if word and word[1] in cls.dow2int:
+                refs = [(now + dt.timedelta(days=day), 0) for day in range(-shift - 8, -shift + 9)]
+            else:
+                refs = [(now, day) for day in range(-shift - 2, -shift + 3)]
+        best = None
+        for ref, day_offset in refs:
+            try:
+                this_t, _ = await cls.parse_date_time(spec, day_offset, ref, startup_time)
+            except ValueError:
+                continue  # date doesn't exist in that year
+            if (now < this_t or (now == this_t and now == startup_time)) and (best is None or this_t < best):
+                best = this_t
+        return best
+
+    @classmethod
     async def timer_trigger_next(cls, time_spec, now, startup_time):
         """Return the next trigger time based on the given time and time specification."""
         next_time = None
@@ -828,15 +857,8 @@ class TrigTime:
                     next_time_adj = now + delta
 
             elif len(match1) == 3:
-                this_t, _ = await cls.parse_date_time(match1[1].strip(), 0, now, startup_time)
-                day_offset = (now - this_t).days + 1
-                if day_offset != 0 and this_t != startup_time:
-                    #
-                    # Try a day offset (won't make a difference if spec has full date)
-                    #
-                    this_t, _ = await cls.parse_date_time(match1[1].strip(), day_offset, now, startup_time)
-                startup = now == this_t and now == startup_time
-                if (now < this_t or startup) and (next_time is None or this_t < next_time):
+                this_t = await cls.once_next(match1[1].strip(), now, startup_time)
+                if this_t is not None and (next_time is None or this_t < next_time):
                     next_time_adj = next_time = this_t
 
             elif len(match2) == 5:
